@@ -5,14 +5,13 @@ import StraxModel.Model.FS
 
     c04.run <chunks> <attempt> …      run `make` attempts one after the other on one key, starting from the empty
                                       file system; one `;`-separated report per attempt
-    c04.ops <variant> <recheck> <chunks>   the fault-free op list of the protocol
 
   chunks   `-` or `/`-separated `start;stop;rows`            (rows as everywhere: `t:e:id,…` or `-`)
   attempt  `variant|recheck|rmorder|fault|extraStart|extraChunks|abandoned|lostClose|show`
            lostClose 1 = threaded processor as it is (an exception of the final close is not reported, the behaviour before the D26 fix)
            variant ser|exe|frk, protocol 1 (current) | 0 (before the D3 fix) | 2 (before the D12 fix), rmorder li|mf|ml,
            fault `none` | `+`-separated list of `exc@k` | `db@k` | `da@k` (k-th FS operation of the attempt) | `ab@k` (exception
-           thrown in after k ops)
+           thrown in after k ops) | `sk@k` (the thread that would issue operation k fails without issuing it)
   report   `<result> find=<ok|err Kind> load=<ok chunks|err Kind> d12=<0|1> ops=<op,op,…>`
 -/
 namespace Strax.Driver.C04
@@ -148,12 +147,6 @@ def handleC04 : List String → Option String
     let cs ← c04Chunks chunks
     let as ← attempts.mapM c04Attempt
     pure <| " ; ".intercalate (c04Run cs FS.empty as)
-  | ["c04.ops", v, r, chunks] => do
-    let cs ← c04Chunks chunks
-    let v ← c04Variant v
-    let r ← c04Proto r
-    let (rr, _) := attempt FS.empty v r cs ⟨v, [], 0, false, false⟩ .sorted []
-    pure <| showOps rr.log.reverse
   | _ => none
 
 end Strax.Driver
